@@ -252,6 +252,7 @@ class Spec:
         self.step = -1
         self.classes = set()
         self.notes = []
+        self.expect_login = set()
 
     # ----------------------------------------------------------- required
     def required(self):
@@ -497,7 +498,7 @@ class Spec:
     # ------------------------------------------------------------- output
     def feed_output(self, step, lines):
         self.step = step
-        seen_verdict_for = set()
+        self.expect_login = set()
         step_cli_lines = []
         for ln in lines:
             m = X_RE.match(ln)
@@ -562,6 +563,8 @@ class Spec:
         if word == "CHECK":
             if proto not in ("dronecheck", "combined"):
                 self.v("C06", "query_wrong_kind", "CHECK sent to %s service" % proto)
+            if proto == "combined" and c.pw is not None:
+                self.expect_login.add((c.tag, svc))
             m = re.match(r"^CHECK (\S*) (\S*) (\S+) (\S+) :(.*)$", text)
             if not m:
                 self.v("C06", "query_format", "malformed CHECK %r" % text)
@@ -571,6 +574,7 @@ class Spec:
                 self.v("C06", "query_content", "CHECK carries %r, expected nick=%r user=%r real=%r" % (text, c.nick, user, c.real))
             self.check_addr_host(c, addr, hst, host, text)
         elif word == "LOGIN":
+            self.expect_login.discard((c.tag, svc))
             if proto not in ("login", "combined"):
                 self.v("C06", "query_wrong_kind", "LOGIN sent to %s service" % proto)
             if c.pw is None or text != "LOGIN " + c.pw:
@@ -743,6 +747,8 @@ class Spec:
     # ------------------------------------------------------- end of step
     def after_step(self, cli_lines):
         rc = self.reply_ctx
+        for tag, svc in sorted(self.expect_login):
+            self.v("C06", "login_not_forwarded", "combined service %s got a CHECK for %s without the LOGIN line although a well-formed password is known" % (svc, tag))
         # ---- C05: relays caused by this step's reply
         if rc is not None:
             c = rc["c"]
@@ -774,9 +780,11 @@ class Spec:
                 if now and not was and svc not in c.queried:
                     self.v("C06", "query_missing", "%s (%s) was not queried about %s in the step that completed its data" % (svc, proto, c.tag))
                 if now and self.in_kind == "P-ok" and proto != "dronecheck" and self.step not in c.queried.get(svc, []):
-                    # re-login on a new well-formed password is what the code does; the
-                    # statement does not demand it, so this is only classified
-                    self.classes.add("relogin_skipped")
+                    # a well-formed password is data the login protocols need: it has to reach every
+                    # login-capable service whose other prerequisites are complete, in this step
+                    # (otherwise a retry after AGAIN, or a password sent after the CHECK of a combined
+                    # service went out, would silently never be forwarded)
+                    self.v("C06", "login_not_forwarded", "%s (%s) did not receive the credentials of the well-formed password delivered for %s in this step" % (svc, proto, c.tag))
         # ---- C03
         for c in self.cur.values():
             if not c.live:
